@@ -26,6 +26,9 @@ RULE = ("one value per case, printed in both modes and consumed in every way a c
         "consecutive calls, keys that trap code-point order; Python mode only: dicts with int / bool / None keys "
         "mixed with strings (every pair of key kinds in both insertion orders; '1' next to 1, 'True' next to True), "
         "int keys around 2**53, 2**63, 2**64, 10**30, 2**1024, 10**400 (adjacent, negative, inserted descending); "
+        "int values beyond the float range (10**400, 200!, 2**1024) in both modes; strings and keys with "
+        "non-printable / astral characters that are not control characters (ZWSP, U+2028, BOM, private use, tag "
+        "characters, planes 15/16), keys from U+E000..U+FFFF against astral keys; "
         "values in which the same dict / list object occurs at several places (every layout, `[row]*3`, shared "
         "defaults), sent through the protocol as references. Thresholds are read from the tree under test. "
         "non-trivial = the value contains a non-empty container; distinct by protocol text")
@@ -607,8 +610,28 @@ _KEYS = ["", " ", "a", "A", "B", "b", "ab", "a b", "a_b", "aB", "Z", "_", "10", 
          "aé", "az", "key", "Key", "k1", "k10", "k2", "-", "0"]
 
 
+# characters that are not control characters (Cc) but not printable either / need surrogate pairs in UTF-16:
+# format (Cf: ZWSP, BOM, tag characters), separators (Zl/Zp), private use (Co, BMP and planes 15/16), astral
+_ODD = ["\u200b", "\u2028", "\u2029", "\ufeff", "\ue000", "\uf8ff", "\ufffd", "\uff76", "\uff21", "\uffee",
+        "\U00010000", "\U0001f1e6", "\U0001f600", "\U000e0001", "\U000e0067", "\U000e007f", "\U000f0000",
+        "\U000ffffd", "\U00100000", "\U0010fffd", "\U0002a6d6"]
+_HUGE = [10 ** 400, -(10 ** 400), 2 ** 1024, 2 ** 1024 - 1, -(2 ** 1024), 10 ** 308, 10 ** 309, 3 ** 2000]
+
+
+def _factorial(n):
+    r = 1
+    for i in range(2, n + 1):
+        r *= i
+    return r
+
+
+_HUGE.append(_factorial(200))
+
+
 def _rs(rng, mx):
     r = rng.random()
+    if r < 0.05:
+        return "".join(rng.choice(_ODD + ["a", " "]) for _ in range(rng.randint(1, 4)))
     if r < 0.08:
         return rng.choice(_WORDS)
     n = rng.randint(0, mx)
@@ -626,6 +649,8 @@ def _num(rng):
     r = rng.random()
     if r < 0.5:
         return rng.randint(-10 ** rng.randint(0, 20), 10 ** rng.randint(0, 20))
+    if r < 0.53:
+        return rng.choice(_HUGE)
     if r < 0.7:
         return rng.choice([0, 1, -1, 2 ** 70, -2 ** 64, 10 ** 25, 7])
     if r < 0.9:
@@ -970,7 +995,7 @@ def gen_cases(rng, tier):
                     yield mk({"c": a, "a": b, "b": c3}, "small-exhaustive")
                     yield mk([[a], [b, c3], {"k": [a, c3]}], "small-exhaustive")
     # 1. random nestings
-    for i in range(2400 if quick else 50000):
+    for i in range(1900 if quick else 50000):
         v = _value(rng, 0, big=(i % 3 == 0))
         off = rng.choice([0, 0, 1, 2, 3, 7, 40])
         yield mk(v, "random-big" if i % 3 == 0 else "random", off)
@@ -995,7 +1020,7 @@ def gen_cases(rng, tier):
                 d = _dict_one_line(rng, max(4, lim_d - off + delta))
                 yield mk(_wrap(rng, d, depth), "dict-threshold%+d" % delta, off)
     # 4. wrapped lists around the wrap limit
-    for _ in range(450 if quick else 8000):
+    for _ in range(350 if quick else 8000):
         depth = rng.choice([0, 0, 1, 2, 3, 5, 10, 20])
         v = _wrapped_list(rng, 2 * depth, lim_w)
         yield mk(_wrap(rng, v, depth), "wrap-limit", 2 * depth)
@@ -1084,6 +1109,28 @@ def gen_cases(rng, tier):
     for b in _BIG:                              # the adjacent pair around every boundary, descending insertion
         yield mk({b + 1: "hi", b: "lo"}, "python-keys-big")
         yield mk({-b: "hi", -b - 1: "lo", b: 0}, "python-keys-big")
+    # 13. characters outside the BMP / not printable (but no control characters) in strings and keys;
+    #     keys from U+E000..U+FFFF against astral keys (code-point order differs from UTF-16 order)
+    hi_bmp = ["\ue000", "\uf8ff", "\uff21", "\uff76", "\ufeff", "\ufffd", "\uffee"]
+    astral = [ch for ch in _ODD if ord(ch) > 0xFFFF]
+    for a in hi_bmp:
+        for b in astral:
+            yield mk({b: 1, a: 2}, "keys-astral")
+            yield mk({"x" + a: [b], "x" + b: a, "x": a + b}, "keys-astral")
+    for ch in _ODD:
+        yield mk([ch, "a" + ch + "b", {ch: ch}], "odd-chars")
+    for _ in range(80 if quick else 2000):
+        v = _value(rng, 1, False)
+        w = [v, {rng.choice(_ODD) + _rs(rng, 3): rng.choice(_ODD), _rs(rng, 4): [rng.choice(_ODD) * rng.randint(1, 3)]}]
+        yield mk(w, "odd-chars")
+    # 14. very big int values (beyond the float range) in both modes, at any nesting
+    for h in _HUGE:
+        yield mk(h, "huge-int")
+        yield mk([h, {"k": h, "l": [h, 1.5]}], "huge-int")
+    for _ in range(40 if quick else 800):
+        depth = rng.choice([0, 1, 3])
+        v = [rng.choice(_HUGE + [1, 2.5, "s"]) for _ in range(rng.choice([1, 3, 12]))]
+        yield mk(_wrap(rng, v if rng.random() < 0.6 else {"n": v, "m": rng.choice(_HUGE)}, depth), "huge-int", 2 * depth)
     # 12. the same container object at several places of the value
     for _ in range(200 if quick else 4000):
         v = _shared_values(rng, lim_w)
